@@ -220,8 +220,16 @@ def check_direct(ctx, case, res, pts, f):
             if (lo is not None and p < lo) or (hi is not None and p > hi):
                 # class rule of the recorded finding: BOTH bounds finite and the interval
                 # narrower than the stencil (width < K * exact step)
+                # ... or wider by less than the rounding of the abscissas (relative 2^-48) with
+                # an excursion of at most 2 ulp of the bound: in exact arithmetic the point
+                # is inside (stays_in_bounds), binary64 rounds x + p*dx one ulp past it
                 K = K_WIDE[(order, n)]
                 narrow = lo is not None and hi is not None and hi - lo < K * dxe
+                if not narrow and lo is not None and hi is not None and \
+                        hi - lo < K * dxe * (1 + Fraction(1, 2 ** 48)):
+                    excess = lo - p if p < lo else p - hi
+                    edge = float(lo if p < lo else hi)
+                    narrow = excess <= 2 * Fraction(math.ulp(edge))
                 ctx.fail_input(
                     "derivative(order=%d,n=%d) evaluates outside the bounds at %r%s" %
                     (order, n, float(p), " (interval narrower than the stencil)"
@@ -1452,6 +1460,14 @@ def run(ctx):
     # class of the recorded finding iff the interval is narrower than K exact steps
     for i in range(ctx.n(300, 5000)):
         one(gen_case(ctx.rng, dyadic=False, critical=True), "float_critical")
+    # recorded instance (found by seed 28): interval wide in exact arithmetic by less than
+    # a rounding error, x + 3 dx rounds one ulp above the upper bound
+    fh = float.fromhex
+    one(dict(order=4, n=1, x=Fraction(fh("0x1.2a6a11149329dp+0")),
+             dx=Fraction(fh("0x1.600223f5d7519p+1")),
+             bounds=(Fraction(fh("-0x1.959a36d71b795p+0")), Fraction(fh("0x1.2d4edd1af3e27p+3"))),
+             coeffs=[-7, 2, -5, 1], pos="fixed", kind="both-critical", dyadic=False,
+             int_bounds=False), "float_critical")
     array_family(ctx, ctx.rng, ctx.n(40, 600))
     misc_inputs(ctx, ctx.rng, ctx.n(40, 600))
     step_limits(ctx, ctx.rng, ctx.n(40, 600))
